@@ -107,6 +107,8 @@ def run(ctx, rep):
     bypass_rule(P, rep, 'R-C04-1b')
     no_inode_in_changed_test_rule(P, rep, 'R-C04-9')
     rehash_pairing_rule(P, rep, 'R-C04-8p')
+    from .C01 import used_parity_rule
+    used_parity_rule(P, rep, 'R-C04-3p')
     from .carried import carried_flags_rule
     carried_flags_rule(P, rep, 'R-C04-10', only={'state_scrub_process', 'state_check_process', 'state_sync_process', 'repair', 'repair_step'}, min_examined=5)
     # coverage of the percentage plans: the derived limits select exactly the quota (a stripe the plan covers is never skipped)
@@ -281,7 +283,7 @@ def run(ctx, rep):
               function='state_sync_process', construct='sync bad mark completeness')
     # a hash recomputed with the new kind during a migration is stored back only for a stripe whose info is refreshed in the same
     # iteration (rehash bit cleared): at the store no error flag may be set
-    rep.rule('R-C04-8', 'rehash store-back (block->hash <- rehandle[].hash) only on paths where the stripe is verified clean (error = silent = io = 0), in scrub and in sync', 2)
+    rep.rule('R-C04-8', 'rehash store-back (block->hash <- rehandle[].hash) only on paths where the stripe is verified clean (error = silent = io = 0) and after every check of the stripe, in scrub and in sync', 4)
     for fn_, LL in (('state_scrub_process', L), ('state_sync_process', Ls)):
         gg = LL.f
         sts = [m_ for m_ in gg.calls() if m_.callee and m_.callee.startswith('llvm.memcpy') and 'rehandle' in gg.expr(m_.ops[1]) and gg.expr(m_.ops[0]).endswith('->hash[0]')]
@@ -298,6 +300,17 @@ def run(ctx, rep):
             for t in LL.fa.at(m_):
                 if t['error_on_this_block'] != 0 or t['silent_error_on_this_block'] != 0 or t['io_error_on_this_block'] != 0:
                     badt.append((t['error_on_this_block'], t['silent_error_on_this_block'], t['io_error_on_this_block']))
+        # "verified" means every test of the stripe is behind: no store that raises one of the three flags is reachable from the
+        # store-back before the iteration ends (the store-back placed before the parity comparison sees clean flags and is wrong)
+        late = []
+        hdr_first = LL.block_first(LL.header)
+        for m_ in sts:
+            r_ = gg.reach([m_], stop={hdr_first.id})
+            for fl in ('error_on_this_block', 'silent_error_on_this_block', 'io_error_on_this_block'):
+                late += [x for x in LL.flag_stores(fl, 1) if x.id in r_]
+        rep.check(not late, 'R-C04-8', '%s: the store-back comes after every check of the stripe' % fn_, sts[0].loc(),
+                  'no error flag can be raised after the store-back' if not late else 'after the new-kind hashes were stored (line %s) the stripe can still be found wrong (flag raised at line %s): it is then marked bad and keeps its rehash mark while its blocks already carry hashes of the new kind -- every later check / scrub reports data errors on undamaged blocks' % (sts[0].line, sorted({x.line for x in late})),
+                  function=fn_, construct='rehash store-back before the last check')
         rep.check(not badt, 'R-C04-8', '%s: new-kind hashes stored only for verified stripes' % fn_, sts[0].loc(),
                   'all tuples at the store have error = silent = io = 0' if not badt else 'stored also with (error, silent, io) = %s: the stripe keeps its rehash flag (it is marked bad, not refreshed) while its blocks already carry new-kind hashes, so every block of it mismatches afterwards' % sorted(set(badt)),
                   function=fn_, construct='rehash store-back')
